@@ -13,6 +13,8 @@ type pending struct {
 	line  string // model request
 	impl  string // canonicalised implementation output
 	input string // replayable input
+	// norm post-processes the model's reply before comparison (e.g. resolves oracle queries).
+	norm func(modelOut string) string
 	// onMismatch decides, on the implementation alone, whether the property itself fails here.
 	onMismatch func(modelOut string) (propertyFails bool, sig, detail string)
 }
@@ -44,6 +46,9 @@ func (c *corr) flush() {
 		fatal("model: %v", err)
 	}
 	for i, p := range c.queue {
+		if p.norm != nil {
+			outs[i] = p.norm(outs[i])
+		}
 		if outs[i] == p.impl {
 			continue
 		}
